@@ -59,7 +59,7 @@ impl ErrSpan {
         match self {
             ErrSpan::One(r)      => r.clone(),
             ErrSpan::Two([r, _]) => r.clone(),
-            ErrSpan::Many(r)     => r.first().unwrap().clone(),
+            ErrSpan::Many(r)     => r.first().cloned().unwrap_or_default(),
         }
     }
 
